@@ -964,12 +964,12 @@ Qed.
 (** a reference is added: owner (shared pointer, array) or weak *)
 Lemma pinv_join s n o d D :
   inv s -> nth_error (objs s) n = Some o -> tgt n o = None -> okind o <> KU ->
-  lookup d (datas s) = Some D -> (ownerk (okind o) = true -> 0 < hard D) ->
+  lookup d (datas s) = Some D -> (ownerk (okind o) = true -> 0 < hard D) -> okind o <> KG ->
   inv (mkSt (al s) (upd (objs s) n (ptr_obj n o (Some d)))
             (store d (mkD (hard D + b2n (ownerk (okind o))) (soft D + 1) (dup D)) (datas s))
             (descs s) (exts s) (log s)).
 Proof.
-  intros I E T NU L HP.
+  intros I E T NU L HP NG.
   pose proof (inv_hard _ _ I d D L) as Dh. pose proof (inv_soft _ _ I d D L) as Ds.
   pose proof (inv_pos _ _ I d D L) as Dp.
   assert (KWk : ownerk (okind o) = false -> kind_eqb (okind o) KW = true) by (destruct (okind o); try discriminate; auto; congruence).
@@ -1055,6 +1055,7 @@ Proof.
       cbn [ptr_obj okind] in Q. rewrite Kn in Q. cbn [b2n] in Q. rewrite ptr_obj_ptr_obj in Q.
       unfold wr_data, set_datas. cbn [al objs datas descs exts log]. apply Q; auto.
       * unfold tgt. rewrite wf_ptr_obj. reflexivity.
+      * destruct (okind on); discriminate.
       * destruct (okind on); discriminate.
     + cbn [objs wr_data set_datas]. auto.
   - exists (set_objs s1 (upd (objs s1) n (ptr_obj n on None))). split; [reflexivity|].
@@ -1145,7 +1146,8 @@ Proof.
         assert (Q' : inv {| al := al s1; objs := upd (objs s1) sp (ptr_obj sp os (Some d));
                             datas := store d {| hard := hard D + 1; soft := soft D + 1; dup := dup D |} (datas s1);
                             descs := descs s1; exts := exts s1; log := log s1 |}).
-        { apply Q; auto. - unfold tgt. rewrite wf_ptr_obj. reflexivity. - destruct (okind os); discriminate. }
+        { apply Q; auto. - unfold tgt. rewrite wf_ptr_obj. reflexivity. - destruct (okind os); discriminate.
+          - destruct (okind os); discriminate. }
         apply (pinv_ext _ _ _ _ _ _ Q'); cbn [al objs datas descs exts log]; auto.
         -- apply Q'.
         -- intros d'. rewrite !lookup_store. destruct (Nat.eqb_spec d d'); auto.
@@ -1402,6 +1404,25 @@ Proof.
       assert (1 <= cnt (upr m) 0 (objs s)); [|lia].
       apply (cnt_ge _ 0 _ j o E). cbn [Nat.add]. unfold upr. rewrite <- K, KU, T'. cbn. apply Nat.eqb_refl.
     + apply C; auto. congruence.
+  - pose proof (uniq_cond s None I j oj E' KU Wf) as Q. destruct (gp (ogp oj)); auto. rewrite UU. auto.
+Qed.
+
+(** a guarded pointer object takes no part in any count: replacing it by any
+    other object of kind [KG] keeps the invariant, whatever the two hold *)
+Lemma pinv_upd_kg s i o o' :
+  inv s -> nth_error (objs s) i = Some o -> okind o = KG -> okind o' = KG ->
+  inv (set_objs s (upd (objs s) i o')).
+Proof.
+  intros I E K K'.
+  assert (HH : forall d, cnt (hp None d) 0 (upd (objs s) i o') = cnt (hp None d) 0 (objs s)).
+  { intros d. apply cnt_upd_same with (o := o); auto. cbn [Nat.add]. unfold hp. cbn [ek]. rewrite K, K'. reflexivity. }
+  assert (WW : forall d, cnt (wp None d) 0 (upd (objs s) i o') = cnt (wp None d) 0 (objs s)).
+  { intros d. apply cnt_upd_same with (o := o); auto. cbn [Nat.add]. unfold wp. cbn [ek]. rewrite K, K'. reflexivity. }
+  assert (UU : forall m, cnt (upr m) 0 (upd (objs s) i o') = cnt (upr m) 0 (objs s)).
+  { intros m. apply cnt_upd_same with (o := o); auto. cbn [Nat.add]. unfold upr. rewrite K, K'. reflexivity. }
+  apply pinv_same_counts with (x := None); auto.
+  intros j oj E' KU Wf. rewrite nth_error_upd in E'. destruct (Nat.eqb_spec i j) as [->|N].
+  - destruct (Nat.ltb j (length (objs s))); [|discriminate]. injection E' as <-. congruence.
   - pose proof (uniq_cond s None I j oj E' KU Wf) as Q. destruct (gp (ogp oj)); auto. rewrite UU. auto.
 Qed.
 
@@ -1744,6 +1765,10 @@ Definition margs (o : mop) : list nat :=
   | SSwap a b | WSwap a b => [a; b]
   | WFrom w x | WLock w x => [w; x]
   | WReset w => [w]
+  | GInit _ | GSet _ _ => []
+  | GGet g | GGetC g => [g]
+  | GCopy _ src => [src]
+  | GSwap a b => [a; b]
   end.
 
 Definition stray (s : st) (i : nat) : Prop :=
@@ -1811,6 +1836,36 @@ Lemma unique_get_spec s u o :
   nth_error (objs s) u = Some o -> wf_obj u o = true -> unique_get s (ASlot u) = Ok (gp (ogp o)).
 Proof.
   intros E W. unfold unique_get, rd_up. rewrite E. cbn [bind ugp]. unfold gget. unfold wf_obj in W. rewrite W. reflexivity.
+Qed.
+
+(** ** guarded pointer objects: set / init / copy stamp the destination with
+    its own address whatever it held before; get returns the stored value of
+    a well-formed object *)
+Lemma guarded_set_spec s i o p :
+  nth_error (objs s) i = Some o ->
+  guarded_set s i p = set_objs s (upd (objs s) i (ptr_obj i o p)) /\
+  nth_error (objs (guarded_set s i p)) i = Some (ptr_obj i o p).
+Proof.
+  intros E. unfold guarded_set. rewrite (wr_gp_eq s i o p E). split; auto.
+  cbn [objs set_objs]. eapply nth_upd_same; eauto.
+Qed.
+
+Lemma guarded_get_const_wf s i o :
+  nth_error (objs s) i = Some o -> wf_obj i o = true -> guarded_get_const s i = Ok (gp (ogp o)).
+Proof.
+  intros E W. unfold guarded_get_const, rd_gp. rewrite E. cbn [bind]. unfold gget. unfold wf_obj in W. rewrite W. reflexivity.
+Qed.
+
+Lemma guarded_get_const_stray s i o :
+  nth_error (objs s) i = Some o -> wf_obj i o = false -> guarded_get_const s i = Ab.
+Proof. intros E W. unfold guarded_get_const. apply (stray_gget s i o E W). Qed.
+
+Lemma guarded_copy_wf s dst src od os :
+  nth_error (objs s) dst = Some od -> nth_error (objs s) src = Some os -> wf_obj src os = true ->
+  guarded_copy s dst src = Ok (set_objs s (upd (objs s) dst (ptr_obj dst od (gp (ogp os))))).
+Proof.
+  intros Ed Es W. unfold guarded_copy. rewrite (guarded_get_const_wf s src os Es W). cbn [bind].
+  rewrite (proj1 (guarded_set_spec s dst od _ Ed)). reflexivity.
 Qed.
 
 Lemma disposable_tgt s i o : disposable s i = true -> nth_error (objs s) i = Some o -> tgt i o = None.
@@ -1912,11 +1967,31 @@ Section MStep.
       destruct (nth_error (objs s) dst) as [od|] eqn:Ed; [|discriminate].
       repeat match goal with H : _ && _ = true |- _ => apply andb_prop in H; destruct H end.
       unfold stray_copy. rewrite Es. eexists. eexists. split; [reflexivity|]. split.
-      + apply (stray_copy_inv s src dst os od I Es Ed).
-        * destruct (okind os), (okind od); try discriminate; reflexivity.
-        * eapply disposable_tgt; eauto.
-        * unfold wf_obj. apply negb_true_iff in H1. exact H1.
+      + assert (K : okind os = okind od) by (destruct (okind os), (okind od); try discriminate; reflexivity).
+        apply orb_prop in H2. destruct H2 as [KG'|DI].
+        * apply (pinv_upd_kg s dst od os I Ed); destruct (okind od); try discriminate; congruence.
+        * apply (stray_copy_inv s src dst os od I Es Ed); auto.
+          -- eapply disposable_tgt; eauto.
+          -- unfold wf_obj. apply negb_true_iff in H1. exact H1.
       + cbn. apply upd_length.
+    - (* GInit *) hk D. rename x into o. unfold guarded_init, guarded_set, wr_gp. rewrite H.
+      eexists. eexists. split; [reflexivity|]. split; [apply (pinv_upd_kg s g o _ I H); auto|cbn; apply upd_length].
+    - (* GSet *) hk D. rename x into o. unfold guarded_set, wr_gp. rewrite H.
+      eexists. eexists. split; [reflexivity|]. split; [apply (pinv_upd_kg s g o _ I H); auto|cbn; apply upd_length].
+    - (* GGet *) hk D. destruct (WF g (or_introl eq_refl)) as (o' & E' & W).
+      unfold guarded_get, guarded_get_const, rd_gp. rewrite E'. cbn [bind]. unfold gget. unfold wf_obj in W. rewrite W. cbn. eauto.
+    - (* GGetC *) hk D. destruct (WF g (or_introl eq_refl)) as (o' & E' & W).
+      unfold guarded_get_const, rd_gp. rewrite E'. cbn [bind]. unfold gget. unfold wf_obj in W. rewrite W. cbn. eauto.
+    - (* GCopy *) hk H. hk H0. rename x into od. rename x0 into os.
+      destruct (WF src (or_introl eq_refl)) as (o' & E' & W). assert (o' = os) by congruence. subst o'.
+      unfold guarded_copy, guarded_get_const, rd_gp. rewrite E'. cbn [bind]. unfold gget. unfold wf_obj in W. rewrite W.
+      cbn [bind of_res]. unfold guarded_set, wr_gp. rewrite H.
+      eexists. eexists. split; [reflexivity|]. split; [apply (pinv_upd_kg s dst od _ I H); auto|cbn; apply upd_length].
+    - (* GSwap *) hk H. hk H0. rename x into oa. rename x0 into ob.
+      destruct (WF a (or_introl eq_refl)) as (o' & E' & Wa). assert (o' = oa) by congruence. subst o'.
+      destruct (WF b (or_intror (or_introl eq_refl))) as (o' & E'' & Wb). assert (o' = ob) by congruence. subst o'.
+      destruct (gp_swap_spec s a b oa ob I H H0) as (s' & R & I' & O'); auto; try congruence.
+      rewrite R. cbn. eexists. eexists. split; [reflexivity|]. split; auto. rewrite O', !upd_length. auto.
   Qed.
 End MStep.
 
@@ -1989,6 +2064,15 @@ Section MStray.
         unfold gget. unfold wf_obj in Wa. rewrite Wa. cbn [bind]. rewrite Wi'. reflexivity.
       + unfold gget. unfold wf_obj in Wa. rewrite Wa. reflexivity.
     - (* WReset *) destruct IN as [<-|[]]. rewrite (weak_reset_stray s w oi); auto.
+    - (* GGet *) destruct IN as [<-|[]]. unfold guarded_get, guarded_get_const. rewrite (stray_gget s g oi); auto.
+    - (* GGetC *) destruct IN as [<-|[]]. unfold guarded_get_const. rewrite (stray_gget s g oi); auto.
+    - (* GCopy: the source is read through the guard; the destination is only written *)
+      destruct IN as [<-|[]]. unfold guarded_copy, guarded_get_const. rewrite (stray_gget s src oi); auto.
+    - (* GSwap *) hk H. hk H0. unfold gp_swap, rd_gp. rewrite H, H0. cbn [bind].
+      destruct (wf_obj a x) eqn:Wa.
+      + destruct IN as [->|[->|[]]]; [congruence|]. assert (x0 = oi) by congruence. subst x0.
+        unfold gget. unfold wf_obj in Wa. rewrite Wa. cbn [bind]. rewrite Wi'. reflexivity.
+      + unfold gget. unfold wf_obj in Wa. rewrite Wa. reflexivity.
   Qed.
 End MStray.
 
@@ -2575,6 +2659,13 @@ Section Frame3.
     - destruct (gp_swap s a b) eqn:E; try discriminate. apply done_inj in H; subst s'. eapply frame_gp_swap; eauto.
     - destruct (weak_reset s w) eqn:E; try discriminate. apply done_inj in H; subst s'. eapply frame_weak_reset; eauto.
     - apply done_inj in H; subst s'. unfold stray_copy. destruct (nth_error (objs s) src); [apply frame_set_objs|apply frame_refl].
+    - apply done_inj in H; subst s'. unfold guarded_init, guarded_set. apply frame_wr_gp.
+    - apply done_inj in H; subst s'. unfold guarded_set. apply frame_wr_gp.
+    - destruct (guarded_get s g); try discriminate. apply done_inj in H; subst s'. apply frame_refl.
+    - destruct (guarded_get_const s g); try discriminate. apply done_inj in H; subst s'. apply frame_refl.
+    - destruct (guarded_copy s dst src) eqn:E; try discriminate. apply done_inj in H; subst s'.
+      unfold guarded_copy in E. bind_inv E. okinj E. unfold guarded_set. apply frame_wr_gp.
+    - destruct (gp_swap s a b) eqn:E; try discriminate. apply done_inj in H; subst s'. eapply frame_gp_swap; eauto.
   Qed.
 End Frame3.
 
@@ -2782,6 +2873,10 @@ Definition mtouch (o : mop) : list nat :=
   | WFrom w _ => [w]
   | WLock _ x => [x]
   | StrayCopy _ dst => [dst]
+  | GInit g | GSet g _ => [g]
+  | GGet _ | GGetC _ => []
+  | GCopy dst _ => [dst]
+  | GSwap a b => [a; b]
   end.
 
 Section OfrStep.
@@ -2818,6 +2913,13 @@ Section OfrStep.
       apply ofr_upd; [cbn; auto|]. intros o' E'. rewrite E' in D.
       repeat match goal with H : _ && _ = true |- _ => apply andb_prop in H; destruct H end.
       destruct (okind os), (okind o'); try discriminate; reflexivity.
+    - apply done_inj in H; subst s'. unfold guarded_init, guarded_set. repeat of_prim.
+    - apply done_inj in H; subst s'. unfold guarded_set. repeat of_prim.
+    - destruct (guarded_get s g); try discriminate. apply done_inj in H; subst s'. apply ofr_refl.
+    - destruct (guarded_get_const s g); try discriminate. apply done_inj in H; subst s'. apply ofr_refl.
+    - destruct (guarded_copy s dst src) eqn:E; try discriminate. apply done_inj in H; subst s'.
+      unfold guarded_copy in E. bind_inv E. okinj E. unfold guarded_set. repeat of_prim.
+    - destruct (gp_swap s a b) eqn:E; try discriminate. apply done_inj in H; subst s'. eapply ofr_gp_swap; eauto; cbn; auto.
   Qed.
 
   (** a well-formed array object present after a pointer operation was there,
